@@ -125,6 +125,7 @@ def run(tier):
         scripts.append((n, base[:r.randint(0, len(base))]))
     f9_seen = False
     for (n, script) in scripts:
+        common.tick()
         ops, outs, complete, order = reshuffle_case(ld, n, r.randint(0, 10 ** 6), script)
         rcases.append(f'({n}%nat, [{"; ".join(ops)}], [{"; ".join(nl(o) for o in outs)}])')
         rmeta.append((n, script, outs))
@@ -148,6 +149,7 @@ def run(tier):
     # (b) local shuffle
     lcases, lmeta = [], []
     for _ in range(3000 if big else 300):
+        common.tick()
         n = r.randint(0, 9)
         B = r.randint(1, n + 1)
         wk = r.random() < 0.3
@@ -160,6 +162,7 @@ def run(tier):
             failures.append(dict(kind='history', summary=f'local shuffle n={n} B={B}: {out} emits an example more than B-1 positions early', config=dict(kind='local', n=n, B=B)))
     # copies of a local shuffle (explicit, frozen, behind a mapped stage, through a lazy apply) keep its window: permutation + locality
     for _ in range(600 if big else 80):
+        common.tick()
         n, B = r.randint(0, 9), r.randint(1, 5)
         seed = r.randint(0, 10 ** 6)
         base = ld.new(list(range(n))).shuffle(True, rng=np.random.RandomState(seed), buffer_size=B)
@@ -202,6 +205,7 @@ def run(tier):
     nfrozen = 0
     for _ in range(1500 if big else 200):
         n = r.randint(0, 7)
+        common.tick()
         seed = r.randint(0, 10 ** 6)
         rs = ld.new(list(range(n))).shuffle(True, rng=np.random.RandomState(seed))
         kind = r.choice(['freeze', 'catch', 'lazyapply', 'freeze_catch'])
